@@ -428,8 +428,12 @@ def judge_stft(ctx, case, fin, obs, variant):
     if obs["err"] != "none":
         return "exception"
     if kws["ola"] == "stub":
+        # Stft.tla OlaArgsOK against the arguments TLC exported: only those names, each as given, nothing given
+        # withheld (a hop that was never given - None, encoded 0 - may be left to the strategy's default)
         exp = layer_dict(fin["olaArgs"])
-        if obs["ncalls"] != 1 or obs["ola"] != exp:
+        got = obs["ola"] or {}
+        if obs["ncalls"] != 1 or any(k not in exp or got[k] != exp[k] for k in got) \
+                or any(k not in got and not (k == "hop" and exp[k] in (None, 0)) for k in exp):
             return "ola-options"
     if not same_blocks(obs["fseen"], seq(fin["fseen"]), ns):
         return "window-before-func"
